@@ -278,6 +278,50 @@ def case_framesplits(p):
     return out
 
 
+def case_bigreads(p):
+    """Hundreds of KB of ciphertext (an /accessories document of a bridge, a camera snapshot) in coarse reads: one read, halves, reads of 64 KiB and
+    256 KiB (what one recv() of the event loop may return), next to fine ones: the decoded plaintext is the same."""
+    msgs = [big_msg(n) for n in p["sizes_plain"]] + [MSG_EVENT]
+    stream, sent, _ = build_stream(msgs, [1024])
+    n = len(stream)
+    plans = [("whole", [n]), ("halves", [n // 2, n - n // 2])]
+    plans += [(f"reads-of-{k}", [k] * (n // k) + ([n % k] if n % k else [])) for k in p["read_sizes"]]
+    plans += [(f"first-{k}-then-rest", [k, n - k]) for k in p["read_sizes"] if k < n]
+    loop = vloop.VirtualLoop().install()
+    out = []
+    trans = 0
+    try:
+        for name, sizes in plans:
+            pr = make_secure(len(sent) + 1)
+            pos = 0
+            try:
+                for k in sizes:
+                    pr.data_received(stream[pos : pos + k])
+                    pos += k
+                    trans += 1
+            except Exception as e:  # noqa: BLE001
+                out.append(("inbound:large-stream-segmentation-fails", {"segmentation": name, "ciphertext_bytes": n, "error": f"{type(e).__name__}: {e}"[:200]}))
+                break
+            if observe(pr) != sent:
+                out.append(("inbound:large-stream-segmentation-differs", {"segmentation": name, "ciphertext_bytes": n, "got_n": len(observe(pr)), "sent_n": len(sent)}))
+                break
+    finally:
+        loop.shutdown()
+    p["_stats"] = (0, trans, n)
+    return out
+
+
+def case_send_between(p):
+    """An EVENT that the accessory cut into two blocks, a request issued by the controller between the two reads (c07's machinery on the secure
+    protocol): what was decrypted so far is not lost."""
+    from vt.props import c07
+
+    q = {"seq": p["seq"], "secure": True}
+    v = c07.case_cuts_send(q)
+    p["_stats"] = q.get("_stats", (0, 0, 0))
+    return [("inbound:" + sig, det) for sig, det in v]
+
+
 def case_corrupt(p):
     """Flip bit `bit` of the stream; deliver whole (cut=None) or cut at `cuts` positions, through a MemTransport so the
     real fatal-error path runs; a request is pending."""
@@ -436,7 +480,7 @@ def case_e2e_corrupt(p):
     return out
 
 
-CASES = {"framesplits": case_framesplits, "e2e_corrupt": case_e2e_corrupt, "outbound": case_outbound, "graph": case_graph, "cuts": case_cuts, "corrupt": case_corrupt, "e2e": case_e2e}
+CASES = {"bigreads": case_bigreads, "send_between": case_send_between, "framesplits": case_framesplits, "e2e_corrupt": case_e2e_corrupt, "outbound": case_outbound, "graph": case_graph, "cuts": case_cuts, "corrupt": case_corrupt, "e2e": case_e2e}
 
 
 def _work(item, seed, tier):
@@ -489,6 +533,11 @@ def run(ctx):
         work.append(("framesplits", {"msgs": [MSG_CHUNK, MSG_CHUNK2], "triples": 1, "max_uniform": 200}))
         work.append(("framesplits", {"msgs": [MSG_EVENT, MSG_CHUNK2, MSG_SMALL], "triples": 2, "max_uniform": 400}))
         work.append(("framesplits", {"msgs": [dict(MSG_CHUNK2, body=bytes(range(256)) * 9, chunks=[1024, 1, 1023, 256])], "max_uniform": 1024}))
+    work.append(("bigreads", {"sizes_plain": [90000, 150000], "read_sizes": [1024, 16384, 65535, 65536, 65553, 65554, 131072, 262144]}))
+    if not quick:
+        work.append(("bigreads", {"sizes_plain": [70000, 300000, 65000], "read_sizes": [1, 7, 1042, 4096, 65536, 100000, 262144, 524288]}))
+    work.append(("send_between", {"seq": [MSG_EVENT, MSG_SMALL, MSG_EVENT]}))
+    work.append(("send_between", {"seq": [MSG_CHUNK2, MSG_CHUNK, MSG_CHUNK2]}))
     # corruption
     cmsgs, csizes = [MSG_204, MSG_EVENT, MSG_SMALL], [60]
     stream, sent, bounds = build_stream(cmsgs, csizes)
